@@ -2,6 +2,7 @@ import QcoVerif.Properties.C18
 import QcoVerif.Properties.C05
 import QcoVerif.Lemmas.Listing
 import QcoVerif.Lemmas.C10Timing
+import QcoVerif.Lemmas.CommuteExample
 /-
   C03 — answers depend on the circuit, not on what was asked before.
 
@@ -18,6 +19,10 @@ import QcoVerif.Lemmas.C10Timing
   corpus/C03 and known_findings.json).  The full frame statement (every observer commutes with every later mutation
   that performs no value-keyed lookup) is not proved either; the check replays every generated history on the
   implementation with and without its intermediate observations.
+  ADDED (last section of this file, helper lemmas in Lemmas/Commute.lean and Lemmas/CommuteSub.lean): on tree-shaped heaps
+  a second listing writes nothing (`listing_idempotent_world`), a listing before `add` of a fresh operation or sub-circuit
+  object leaves no trace (`listing_then_add`), the same for `add_sub_circuit` of a separate circuit on heaps without group
+  links (`listing_then_addSub_partial`), and the R3 witness (`listing_then_copy_R3_witness`).
 -/
 namespace Qco.C03
 
@@ -108,5 +113,183 @@ theorem times_depend_on_heap_only (w w' : World) (ho : w.ops = w'.ops) (hl : w.l
           · rename_i r0 _ _
             simp only [i5 r0]
   exact ⟨(key f).2.2.2.1 o, (key f).2.2.2.2.1 o, (key f).2.2.1 o⟩
+
+/-! ## the listing commutes with `add`; a second listing writes nothing (helper lemmas: Lemmas/Commute.lean)
+
+Hypotheses.  `TreeBelow w f c` (Lemmas/TreeHeap.lean): the heap below `c` is a tree of depth ≤ `f` — every node of every
+composite is an object of the heap, no object hangs in two graphs or twice in one, `c` is not below itself.  This is what the
+API builds (`C06.fresh_circuit_is_tree`, `add_leaf_keeps_tree`, `add_sub_circuit_keeps_tree`).  `Commute.AddOk w f c o` adds:
+`f` is within the fuel of the driver; `c` is a composite whose relation tree was built by `attach` (`Built`); every object's
+link is an existing link; `o` is a leaf operation or a whole sub-circuit object none of whose objects (`Commute.cone`: `o` and
+what a listing visits below it) is an object of the tree below `c` (constructors `Commute.AddOk.of_leaf`,
+`Commute.AddOk.of_tree`); the link of `o` is not a group link (`refOf` of a group link evaluates end times, which DO depend on
+handed-down links — this excludes the nodes `extend` adds).
+
+What is false without them: on a cyclic heap a second listing still writes (`listing_idempotent_cyclic_witness`); with a
+link id out of range `add` (which allocates a link) changes the meaning of that id — the model-only reason for `range`. -/
+
+/-- the heap a listing of a tree-shaped circuit leaves is settled: every node below `c` has a relation or carries the
+    link of its enclosing composite (the hypothesis of `listing_fixed_point` and of `C18.plot_frame_partial`). -/
+theorem listing_leaves_settled (w : World) (f c : Nat) (ht : TreeBelow w f c) (hf : f ≤ w.depthFuel)
+    (hc : (w.op c).isComp = true) :
+    Draw.settled (w.operations c).1 (w.operations c).1.depthFuel c = true := by
+  have hfuel : (w.operations c).1.depthFuel = w.depthFuel := by
+    unfold World.depthFuel; rw [operations_ops_size]
+  rw [hfuel]
+  exact Commute.settled_after f w.depthFuel c w ht hf hc
+
+/-- **listing_idempotent_world**: listing a tree-shaped circuit a second time changes NOTHING in the heap (and returns
+    the same sequence). -/
+theorem listing_idempotent_world (w : World) (f c : Nat) (ht : TreeBelow w f c) (hf : f ≤ w.depthFuel)
+    (hc : (w.op c).isComp = true) :
+    (w.operations c).1.operations c = ((w.operations c).1, (w.operations c).2) := by
+  have h := Qco.C18.settled_listing (w.operations c).1 c (listing_leaves_settled w f c ht hf hc)
+  have h2 := operations_twice w c
+  rw [h] at h2 ⊢
+  simp only at h2
+  rw [h2]
+
+/-- … hence after one listing every further observer that lists (plot, acquisition index, export) leaves the heap alone:
+    the plot clause that `C18.plot_frame_partial` left open, for tree-shaped circuits. -/
+theorem plot_after_listing_is_identity (w : World) (f c : Nat) (ht : TreeBelow w f c) (hf : f ≤ w.depthFuel)
+    (hc : (w.op c).isComp = true) (a : Draw.Args) :
+    (Draw.plot (w.operations c).1 c a).1 = (w.operations c).1 :=
+  Qco.C18.plot_frame_partial _ c a (listing_leaves_settled w f c ht hf hc)
+
+/-- **without the tree hypothesis `listing_idempotent_world` is false**: on the cyclic heap `Commute.exCyc` (five nested
+    composites closed to a cycle, one of them carrying a link with a reference) the first listing leaves object `3` with link
+    `0`, a second listing of the same circuit assigns link `1` to it. -/
+theorem listing_idempotent_cyclic_witness :
+    (((Commute.exCyc.operations 0).1.operations 0).1.op 3).link ≠ ((Commute.exCyc.operations 0).1.op 3).link := by
+  rw [Commute.exCyc_second_listing_writes.1, Commute.exCyc_second_listing_writes.2]
+  decide
+
+/-- `add` after a listing takes the same decision as `add` without it: the same explicit transformation
+    (`Commute.addW k G c o`: allocate the link `k` and give it to `o` — or nothing —, count the same warning, make `G` the
+    relation tree of `c`) is applied to the two heaps.  In particular the graph of `c`, the object `o`, the links, the
+    warning counter and the undefined-flag are the same immediately after the `add`; the two heaps differ exactly in the
+    links the first listing handed down. -/
+theorem add_after_listing_same_decision (w : World) (f c o : Nat) (H : Commute.AddOk w f c o) :
+    ∃ (k : Option (Nat × Bool × Link)) (G : List Entry),
+      (w.operations c).1.add c o = Commute.addW k G c o (w.operations c).1 ∧ w.add c o = Commute.addW k G c o w :=
+  Commute.add_after_listing w f c o H
+
+/-- … spelled out: immediately after the `add` the two histories have the same links, warning counter and undefined-flag,
+    the same composite `c` (same new relation tree) and the same added object `o` (same link). -/
+theorem add_after_listing_frame (w : World) (f c o : Nat) (H : Commute.AddOk w f c o) :
+    ((w.operations c).1.add c o).links = (w.add c o).links ∧
+    ((w.operations c).1.add c o).warnings = (w.add c o).warnings ∧
+    ((w.operations c).1.add c o).undef = (w.add c o).undef ∧
+    ((w.operations c).1.add c o).op c = (w.add c o).op c ∧
+    ((w.operations c).1.add c o).op o = (w.add c o).op o := by
+  obtain ⟨k, G, h1, h2⟩ := Commute.add_after_listing w f c o H
+  obtain ⟨_, _, _, _, hopX, hopc, _⟩ := Commute.addOk_facts w f c o H
+  have hopo : (w.operations c).1.op o = w.op o := hopX o (Commute.self_mem_cone w _ o)
+  have hO := Commute.addW_opsOnly k G c o (Commute.decomposed_opsOnly w.depthFuel c w)
+  have hsz : (w.operations c).1.ops.size = w.ops.size := operations_ops_size w c
+  have hlsz : (w.operations c).1.links.size = w.links.size := by rw [operations_links]
+  rw [h1, h2]
+  refine ⟨?_, ?_, ?_, Commute.addW_op_congr k G c o hsz hlsz c hopo hopc hopc,
+    Commute.addW_op_congr k G c o hsz hlsz o hopo hopc hopo⟩
+  · exact hO.links
+  · show (Commute.addW k G c o (w.decomposed w.depthFuel c).1).warnings = _
+    rw [hO]
+  · show (Commute.addW k G c o (w.decomposed w.depthFuel c).1).undef = _
+    rw [hO]
+
+/-- **listing_then_add**: listing `c`, adding the fresh object `o` (a leaf operation, or a sub-circuit object as a whole),
+    listing again gives the same HEAP and the same sequence as adding `o` and listing once — the intermediate observation
+    leaves no trace. -/
+theorem listing_then_add (w : World) (f c o : Nat) (H : Commute.AddOk w f c o) :
+    ((w.operations c).1.add c o).operations c = (w.add c o).operations c :=
+  Commute.listing_then_add w f c o H
+
+/-- the observable answers: same final sequence; every object carries the same link with the same relation type and
+    references; every start, end and duration the evaluator reports is the same (for any fuel). -/
+theorem listing_then_add_answers (w : World) (f c o : Nat) (H : Commute.AddOk w f c o) :
+    (((w.operations c).1.add c o).operations c).2 = ((w.add c o).operations c).2 ∧
+    (∀ n, (((w.operations c).1.add c o).operations c).1.lnk
+            ((((w.operations c).1.add c o).operations c).1.op n).link =
+          ((w.add c o).operations c).1.lnk (((w.add c o).operations c).1.op n).link) ∧
+    (∀ g n, evStart (((w.operations c).1.add c o).operations c).1 g n = evStart ((w.add c o).operations c).1 g n ∧
+            evEnd (((w.operations c).1.add c o).operations c).1 g n = evEnd ((w.add c o).operations c).1 g n ∧
+            evDur (((w.operations c).1.add c o).operations c).1 g n = evDur ((w.add c o).operations c).1 g n) := by
+  rw [listing_then_add w f c o H]
+  exact ⟨rfl, fun _ => rfl, fun _ _ => ⟨rfl, rfl, rfl⟩⟩
+
+/-- **listing_then_addSub (partial)**.
+    Full statement (item 3 of the task): for every heap reachable through the API, listing any circuit before
+    `c.add_sub_circuit(sub)` does not change what is observed afterwards, provided no two distinct objects below the copied
+    circuit are equal keys of the copy lookup.
+    Proved here, for the REAL keys as well as for the identity-keyed twin: on a heap without group links and with all link
+    ids in range (`Commute.CInv`), for `c` and `sub` SEPARATE trees (`Commute.SubOk`: no object below `sub` is an object below
+    `c`) such that the keys the copy reads for the objects below `sub` — of the reference of each link and of the registry of
+    each measurement — are identities (`identKeys = true`) or keys of objects that are not below `c` (`Commute.KeyFree`: `sub`
+    does not refer into the tree of `c`), listing `c` first leaves no trace: the same copy is made (same new objects, links
+    and identifier — `copyObj` reads no link of an object outside the copied tree, `Commute.copyObj_local`), and after the
+    next listing of `c` the heaps AND the sequences are equal.
+    Missing: (i) heaps with group links (`refOf` of a group link evaluates end times, which depend on handed-down links);
+    (ii) a listing of `sub` itself, or `sub` inside / referring into the tree of `c`: there the heaps are NOT equal even in
+    the twin (the copies of the heads carry copies of different link objects) and only the observable answers can agree —
+    with the real keys they do not: `listing_then_copy_R3_witness` (there the listed circuit IS the copied one, and the
+    registry of the measurement is an object the listing writes to). -/
+theorem listing_then_addSub_partial (w : World) (f f' c sub : Nat) (H : Commute.SubOk w f f' c sub) :
+    ((w.operations c).1.addSub c sub).2 = (w.addSub c sub).2 ∧
+    ((w.operations c).1.addSub c sub).1.operations c = (w.addSub c sub).1.operations c :=
+  Commute.listing_then_addSub w f f' c sub H
+
+/-- **listing_then_copy_R3_witness** (known finding R3): WITHOUT a hypothesis that distinct objects below the copied
+    circuit are distinct keys of the copy lookup, a listing before nesting changes later answers.  Heap `Commute.exR3`
+    (built by `newCircuit / newLink / newOp / add`, `exR3Build_eq`): `c1 ⊃ c2 ⊃ m`, two relation-less nested one-operation
+    sub-circuits, the acquisition registry of the measurement `m` is `c2`.  Listing `c1` hands the link of `c1` to `c2`, which
+    makes the two composites value-equal; `c0.add_sub_circuit(c1)` then re-targets the registry of the copy of `m` through the
+    entry `c1 ↦ c0`: acquisition index `(0, 0)` — without the listing it is `(-1, -1)`.  The listed sequence of `c0` is the
+    same.  In the identity-keyed twin (`identKeys := true`) both histories answer `(-1, -1)`. -/
+theorem listing_then_copy_R3_witness :
+    Commute.exR3Build = Commute.exR3 ∧ Commute.exR3.identKeys = false ∧
+    (((Commute.exR3.operations 1).1.addSub 0 1).1.acq 6).2 ≠ ((Commute.exR3.addSub 0 1).1.acq 6).2 ∧
+    (((Commute.exR3.operations 1).1.addSub 0 1).1.operations 0).2 = ((Commute.exR3.addSub 0 1).1.operations 0).2 ∧
+    (((({ Commute.exR3 with identKeys := true } : World).operations 1).1.addSub 0 1).1.acq 6).2 =
+      ((({ Commute.exR3 with identKeys := true } : World).addSub 0 1).1.acq 6).2 := by
+  obtain ⟨h1, h2, h3, h4, _, _⟩ := Commute.exR3_indices
+  obtain ⟨t1, t2⟩ := Commute.exR3_twin_indices
+  refine ⟨Commute.exR3Build_eq, rfl, ?_, by rw [h3, h4], by rw [t1, t2]⟩
+  rw [h1, h2]
+  decide
+
+/-! ### non-vacuity -/
+
+/-- `TreeBelow` with depth 3 on a heap built by `newCircuit / newOp / add / addSub` (top ⊃ mid ⊃ inner, Lemmas/TreeBuild). -/
+example : TreeBelow exG.1 4 exF.2 ∧ 4 ≤ exG.1.depthFuel ∧ (exG.1.op exF.2).isComp = true :=
+  ⟨exG_tree.1, exG_tree.2.1, exG_tree.2.2.1⟩
+
+/-- … so the idempotence theorem applies to it. -/
+example : (exG.1.operations exF.2).1.operations exF.2 = ((exG.1.operations exF.2).1, (exG.1.operations exF.2).2) :=
+  listing_idempotent_world exG.1 4 exF.2 exG_tree.1 exG_tree.2.1 exG_tree.2.2.1
+
+/-- `AddOk` on a heap built by `newCircuit / newLink / newOp / add`: `top ⊃ sub ⊃ Rx180(0)` (nesting depth 2) and a fresh
+    `Ry180(0)`, which `add` links FOLLOWED_BY the sub-circuit (the `relink` branch: a link is allocated). -/
+example : Commute.AddOk Commute.exBuild 3 0 3 := Commute.exBuild_ok
+
+example : ((Commute.exBuild.operations 0).1.add 0 3).operations 0 = (Commute.exBuild.add 0 3).operations 0 :=
+  listing_then_add _ 3 0 3 Commute.exBuild_ok
+
+/-- the same with a whole sub-circuit as the added object: `s2 = [Ry180(0)]` added to `top ⊃ sub ⊃ Rx180(0)`. -/
+example : Commute.AddOk Commute.exBuildS 3 0 3 := Commute.exBuildS_ok
+
+example : ((Commute.exBuildS.operations 0).1.add 0 3).operations 0 = (Commute.exBuildS.add 0 3).operations 0 :=
+  listing_then_add _ 3 0 3 Commute.exBuildS_ok
+
+/-- the first listing of that heap does write (the rotation `2` is handed link `0` in place of its own link `1`): the
+    theorem is not about a listing that happens to be the identity. -/
+example : ((Commute.exLit.operations 0).1.op 2).link = 0 ∧ (Commute.exLit.op 2).link = 1 := by decide +kernel
+
+/-- `SubOk` on a heap built by `newCircuit / newLink / newOp / add` under the real semantics (`identKeys = false`):
+    `top ⊃ sub ⊃ Rx180(0)` and the separate circuit `s2 ⊃ Ry180(0)`, which `top.add_sub_circuit(s2)` copies and nests. -/
+example : Commute.SubOk Commute.exBuildS 3 2 0 3 ∧ Commute.exBuildS.identKeys = false :=
+  ⟨Commute.exBuildS_subOk, Commute.exBuildS_real⟩
+
+example : ((Commute.exBuildS.operations 0).1.addSub 0 3).1.operations 0 = (Commute.exBuildS.addSub 0 3).1.operations 0 :=
+  (listing_then_addSub_partial _ 3 2 0 3 Commute.exBuildS_subOk).2
 
 end Qco.C03
